@@ -22,7 +22,7 @@ RULE = ('Typed expression IR (Bool/Num/Str roots; depth<=4; every documented mat
 ASSUMPTIONS = ['regular-expression semantics are Python re (the documented pattern language); fuzzy() is checked by laws only',
                'month/year/day/weekday of a missing date is undocumented: such evaluations are counted, not asserted',
                'case-insensitivity is asserted for ASCII letters only (the statement says ASCII text)']
-REQUIRED_CLASSES = ['short_circuit_guard', 'chain', 'comprehension', 'div_zero', 'law_case_flip', 'fuzzy_delete', 'fuzzy_substitute', 'fuzzy_text_arg']
+REQUIRED_CLASSES = ['date_primitives_exhaustive', 'short_circuit_guard', 'chain', 'comprehension', 'div_zero', 'law_case_flip', 'fuzzy_delete', 'fuzzy_substitute', 'fuzzy_text_arg']
 
 
 def tally_eval(src, txn, variables=None, rows=None):
@@ -345,6 +345,28 @@ def exhaustive(tier, stats: Stats, part, nparts):
             shapes.append(['cmp', x, [[o1, y], [o2, z]]])
     txns = [lang.mk_txn(t) for t in BTXNS]
     n = 0
+    if part == 0:
+        # "month/year/day/weekday are those of the date": every day within a week of a year boundary 2019-2031, every month end and leap day 2023-2025
+        from datetime import date as _date, timedelta as _td
+        days = {_date(y, 1, 1) + _td(days=k) for y in range(2019, 2032) for k in range(-7, 8)}
+        days |= {_date(y, m, 1) - _td(days=1) for y in (2023, 2024, 2025) for m in range(1, 13)} | {_date(2024, 2, 29), _date(2000, 2, 29), _date(2100, 3, 1)}
+        for d in sorted(days):
+            txn = {'description': 'x', 'amount': 1.0, 'date': d, 'field': None, 'source': None, 'location': None}
+            want = {'month': d.month, 'year': d.year, 'day': d.day, 'weekday': d.weekday()}
+            for prim, w in want.items():
+                for src in (prim, 'txn.' + prim, prim.upper()):
+                    got = tally_eval(src, txn, {}, {})
+                    n += 1
+                    if got != ('val', w):
+                        raise Violation(f'{src} of {d.isoformat()} ({d:%A}) is {got!r}, expected {w}', {'kind': 'ref', 'expr': ['name', prim], 'txn': dict(txn, date=d.isoformat()), 'rows': {}, 'vars': {}},
+                                        'date-primitive')
+            got = tally_eval(f'date == "{d.isoformat()}" and date >= "{d.isoformat()}" and date < "{(d + _td(days=1)).isoformat()}" and date > "{(d - _td(days=1)).isoformat()}"', txn, {}, {})
+            n += 1
+            if got != ('val', True):
+                raise Violation(f'date comparisons against ISO strings around {d.isoformat()} gave {got!r}', {'kind': 'ref', 'expr': ['cmp', ['name', 'date'], [['==', ['str', d.isoformat()]]]],
+                                                                                                             'txn': dict(txn, date=d.isoformat()), 'rows': {}, 'vars': {}}, 'date-primitive')
+        stats.case(jhash('date-primitives'), True, ['date_primitives_exhaustive'])
+        stats.exhaustive[f'month/year/day/weekday and ISO-string comparisons on {len(days)} dates around year boundaries, month ends and leap days'] = True
     for i, e in enumerate(shapes):
         if i % nparts != part:
             continue
